@@ -660,6 +660,21 @@ pub fn book_update(book: &RefBook, w: &World, so: &StepObs, out: &mut StepOut, p
 // --------------------------------------------------------------------------------------- C04
 pub fn oracle_c04(w: &World, so: &StepObs, out: &mut StepOut, cps: &CpRef, book: &RefBook) {
     let eng = w.engine.to_string();
+    // "funding owed" presupposes that the cumulative premium fraction the positions are charged against records every
+    // settlement: a successful PayFunding advances it by the settled fraction, and nothing else moves it
+    for v in 0..so.pre.vamms.len().min(so.post.vamms.len()) {
+        let settles_here = matches!(&so.act, Act::Fund { v: fv, .. } if *fv == v) && so.outcome.ok;
+        let adv = so.post.vamms[v].cum - so.pre.vamms[v].cum;
+        if settles_here {
+            if let Some(exp) = expected_fraction(w, so, v) {
+                if (adv - exp).abs() > 1 {
+                    out.viol("C04:funding-history-differs-from-settlement", format!("vamm{}: cumulative premium fraction advanced by {} in a settlement of {} ({:?})", v, adv, exp, so.act));
+                }
+            }
+        } else if adv != 0 {
+            out.viol("C04:funding-history-differs-from-settlement", format!("vamm{}: cumulative premium fraction moved by {} outside a settlement ({:?})", v, adv, so.act));
+        }
+    }
     if let Act::Close { t, v, .. } = &so.act {
         let p0 = so.pre_t(*v, t);
         if let Some(pp_stored) = &p0.pos {
